@@ -1,6 +1,6 @@
 SPECIFICATION Spec
 CONSTANTS
-  KernelSet = {"MatrixDotProduct", "MatVec", "VecMat", "Outer", "Transpose", "Trace", "Norm", "ColStats", "Covariance", "DVector", "Tensor", "Sort"}
+  KernelSet = {"MatrixDotProduct", "MatVec", "VecMat", "Outer", "Transpose", "Trace", "Norm", "ColStats", "Covariance", "DVector", "Tensor", "Sort", "DVector2", "MatMaps", "DescStat", "DescStatMiss", "Correl", "Division"}
   RSet = {0, 1, 2, 3, 4, 5, 6, 7, 8, 9, 10, 11, 12, 13, 14, 15, 16, 17}
   KSet = {0, 1, 2, 3, 4, 5, 6, 7, 8, 9, 10, 11, 12, 13, 14, 15, 16, 17}
   CSet = {0, 1, 2, 3, 4, 5, 6, 7, 8, 9, 10, 11, 12, 13, 14, 15, 16, 17}
@@ -9,6 +9,7 @@ CONSTANTS
   DSet = {0, 1, 2, 3, 4, 5, 6, 7, 8, 9, 10, 11, 12, 13, 14, 15, 16, 17}
   SliceSet = {1, 2, 3, 4}
   SortCols = {1, 2, 3, 4}
+  ESet = {0, 1, 2, 3, 4, 5, 6, 7, 8, 9, 10, 11, 12, 13, 14, 15, 16, 17}
   SeedSet = {0, 1, 2}
   DoEmit = TRUE
 INVARIANT LawProductTranspose
@@ -25,5 +26,15 @@ INVARIANT LawCovariance
 INVARIANT LawColStats
 INVARIANT LawTensor
 INVARIANT LawSort
+INVARIANT LawVecDiffSum
+INVARIANT LawOrderStats
+INVARIANT LawUnitNorm
+INVARIANT LawMaps
+INVARIANT LawArgExt
+INVARIANT LawDescStat
+INVARIANT LawDescStatMiss
+INVARIANT LawCorrel
+INVARIANT LawDivision
+INVARIANT LawTensor2
 CONSTRAINT EmitCase
 CHECK_DEADLOCK FALSE
